@@ -270,10 +270,26 @@ def body(run):
             except Exception:
                 pass
             h = by_id.get(hid)
-            if h is None or r.get("line") is None or '"ev":"Crash"' in (r.get("line") or ""):
+            if h is None or r.get("line") is None:
                 kept.append(r)
                 continue
             again = None
+            crashed = '"Crash"' in (r.get("line") or "")
+            if crashed:
+                # a Crash line exists only when the history killed its process twice: in its chunk and again when it was run
+                # by itself (run_histories). That is the replay; what remains to be told apart is whose code panicked.
+                try:
+                    stderr = json.loads(r["line"]).get("stderr", "")
+                except Exception:
+                    stderr = ""
+                top = ""
+                if "[running]:" in stderr:
+                    after = stderr.split("[running]:", 1)[1].strip().splitlines()
+                    top = after[0].strip() if after else ""
+                if top.startswith("verifharness/") or top.startswith("main."):
+                    raise V.Inconclusive("the pool driver itself panicked (not a verdict on the library): " + stderr[:1500])
+                kept.append(r)
+                continue
             for k in range(5):
                 ls2, err2 = run_chunk(drv, V.workdir(PID, "pool-rerun", clean=False), "rr-%s-%d" % (hid, k), [h], 1)
                 if ls2 is None:
